@@ -5,7 +5,10 @@ THEOREMS = ['C15_window_shift', 'C15_from_text_slice_coord', 'C15_dyn_bytes_eq_s
             'C15_lookbehind_refuted', 'C15_example', 'C15_parse_window_shift', 'C15_driver_ignores_positions',
             'C15_propagate_commutes', 'C15_parse_example']
 GEN_DEPS = ['LineCounter', 'LexStep', 'DynStep']
-RULE = ('the C06 grammars (token soup with every newline spelling; structured grammar with inlined/filtered/empty rules) x '
+RULE = ('[routes: every comparison is also made through parse_interactive+feed_token+feed_eof, forks (copy(), copy.copy) '
+        'finished separately, ImmutableInteractiveParser, copy.deepcopy(tree), Tree.copy(), pickle round trip and scan(), '
+        'each also against parse() of the same input; token values must keep the exact Python type of the buffer] '
+        'the C06 grammars (token soup with every newline spelling; structured grammar with inlined/filtered/empty rules) x '
         'random ASCII inputs (accepted and rejected) x 5 parser/lexer configurations; each reference run on the plain str '
         'is compared - tree shape, token types/values, all 8 position fields, all metas, error class + position + expected '
         'set - with: the bytes run (use_bytes=True), TextSlice windows [a,b) of prefix+text+suffix (str and bytes; '
@@ -26,7 +29,7 @@ ALLOWED_AXIOMS = []
 # ------------------------------------------------------------------------------------------ the differential
 def outcome_sig(out):
     if out['kind'] == 'ok':
-        return ('ok', P.tree_sig(out['result']))
+        return ('ok', P.tree_sig(out['result'], out['buf']))
     if out['kind'] == 'error':
         return ('error', out['sig'])
     return ('unsupported', out.get('why'))
@@ -43,14 +46,14 @@ def shift_sig(sig, a, buf):
         return (pos + a, ln, col)
 
     def tok(f):
-        ty, val, s, ln, col, eln, ecol, e = f
+        ty, val, s, ln, col, eln, ecol, e = f[:8]
         if s is None:
             return f
         s3 = c3(s)
         if e == s:
-            return (ty, val, s3[0], s3[1], s3[2], s3[1], s3[2], s3[0])
+            return (ty, val, s3[0], s3[1], s3[2], s3[1], s3[2], s3[0]) + f[8:]
         e_ = e3(e, s)
-        return (ty, val, s3[0], s3[1], s3[2], e_[1], e_[2], e_[0])
+        return (ty, val, s3[0], s3[1], s3[2], e_[1], e_[2], e_[0]) + f[8:]
 
     def tree(t):
         if t[0] == 'T':
@@ -63,6 +66,10 @@ def shift_sig(sig, a, buf):
             return ('T', t[1], (empty, st, en), tuple(tree(c) for c in t[3]))
         if t[0] == 'K':
             return ('K',) + tok(t[1:])
+        if t[0] == 'L':
+            return ('L', tuple(tree(c) for c in t[1]))
+        if t[0] == 'R':
+            return ('R', t[1] + a, t[2] + a, tree(t[3]))
         return t
     kind, body = sig
     if kind == 'ok':
@@ -100,17 +107,52 @@ def first_diff(x, y, path='result'):
     return None if x == y else '%s: %r vs %r' % (path, x, y)
 
 
-def compare(g, parser, lexer, text, extra, rep, window, complete_slice=False, ref=None):
+def strip_meta(sig):
+    if isinstance(sig, tuple):
+        if sig and sig[0] == 'T':
+            return ('T', sig[1], None, tuple(strip_meta(c) for c in sig[3]))
+        return tuple(strip_meta(c) for c in sig)
+    return sig
+
+
+def route_vs_parse(api, route, plain):
+    """another public way of obtaining the result must give what parse() gives on the same input:
+    tree shape, token types, values, value kinds, positions, metas (Tree.copy() does not carry the meta;
+    a fork yields the result three times; for errors class and position are compared)"""
+    if api in ('parse', 'scan') or route['kind'] == 'unsupported' or plain['kind'] == 'unsupported':
+        return []
+    r, p = outcome_sig(route), outcome_sig(plain)
+    if r[0] != p[0]:
+        return ['%s() ends with %r but parse() with %r' % (api, r[0] if r[0] == 'ok' else r[1][:4], p[0] if p[0] == 'ok' else p[1][:4])]
+    if r[0] == 'error':
+        a, b = r[1], p[1]
+        if a[0] != b[0] or (a[0] != 'UnexpectedEOF' and not (a[0] == 'UnexpectedToken' and a[4] == '$END') and a[1:4] != b[1:4]):
+            return ['%s() raises %r but parse() raises %r' % (api, a[:4], b[:4])]
+        return []
+    rs, ps = r[1], p[1]
+    if api == 'tree_copy':
+        rs, ps = strip_meta(rs), strip_meta(ps)
+    msgs = []
+    for k, one in enumerate(rs[1] if api == 'fork' else [rs]):
+        d = first_diff(ps, one)
+        if d:
+            msgs.append('result obtained through %s%s differs from parse() (parse vs %s): %s'
+                        % (api, ('[%d]' % k) if api == 'fork' else '', api, d))
+            break
+    return msgs
+
+
+def compare(g, parser, lexer, text, extra, rep, window, complete_slice=False, ref=None, api='parse'):
     """list of messages: how the variant (rep, window) differs from the plain-str reference, re-based"""
     dynamic = lexer in P.DYNAMIC
     if ref is None:
-        ref = P.run_case(g, parser, lexer, text, 'str', None, 'parse', extra)
+        ref = P.run_case(g, parser, lexer, text, 'str', None, api, extra)
     if ref['kind'] == 'unsupported':
         return [], ref, ref
     if complete_slice:
         var = run_complete_slice(g, parser, lexer, text, rep, extra)
     else:
-        var = P.run_case(g, parser, lexer, text, rep, window, 'parse', extra)
+        var = P.run_case(g, parser, lexer, text, rep, window, api, extra)
     msgs = []
     if var['kind'] == 'unsupported':
         return [], ref, var
@@ -125,8 +167,16 @@ def compare(g, parser, lexer, text, extra, rep, window, complete_slice=False, re
     got = normalise(outcome_sig(var))
     d = first_diff(exp, got)
     if d:
-        msgs.append('%s%s differs from the plain str run re-based by %d (expected vs observed): %s'
-                    % (rep, ' window' if window else (' complete slice' if complete_slice else ''), var['a'], d))
+        msgs.append('%s%s%s differs from the plain str run re-based by %d (expected vs observed): %s'
+                    % (rep, ' window' if window else (' complete slice' if complete_slice else ''),
+                       '' if api == 'parse' else ' via ' + api, var['a'], d))
+    if api != 'parse':
+        for one in (ref, var):          # each route against parse() in its own representation
+            w_ = None if one is ref else window
+            plain = P.run_case(g, parser, lexer, text, 'str' if one is ref else rep, w_, 'parse', extra)
+            msgs += route_vs_parse(api, one, plain)
+            if msgs:
+                break
     return msgs, ref, var
 
 
@@ -154,7 +204,8 @@ def witness(g, parser, lexer, text, rep, window, api, extra, complete_slice=Fals
 def run_witness(w):
     """the differential on one witness -> list of (stage, message)"""
     msgs, _, _ = compare(w['grammar'], w['parser'], w['lexer'], w['text'], tuple((k, v) for k, v in w.get('extra', [])),
-                         w['rep'], tuple(w['window']) if w.get('window') else None, w.get('complete_slice', False))
+                         w['rep'], tuple(w['window']) if w.get('window') else None, w.get('complete_slice', False),
+                         api=w.get('api', 'parse'))
     return [('representation-differential', m) for m in msgs]
 
 
@@ -166,22 +217,22 @@ class Diff:
         self.refs = {}
         self.shifts = []      # (coq ShiftCase term, witness)
 
-    def case(self, stream, g, parser, lexer, text, extra, rep, window, complete_slice=False, key=None):
+    def case(self, stream, g, parser, lexer, text, extra, rep, window, complete_slice=False, key=None, api='parse'):
         ctx = self.ctx
-        rk = (g, parser, lexer, text, extra)
+        rk = (g, parser, lexer, text, extra, api)
         if rk not in self.refs:
-            if len(self.refs) > 50:
+            if len(self.refs) > 80:
                 self.refs.clear()
-            self.refs[rk] = P.run_case(g, parser, lexer, text, 'str', None, 'parse', extra)
-        msgs, ref, var = compare(g, parser, lexer, text, extra, rep, window, complete_slice, ref=self.refs[rk])
+            self.refs[rk] = P.run_case(g, parser, lexer, text, 'str', None, api, extra)
+        msgs, ref, var = compare(g, parser, lexer, text, extra, rep, window, complete_slice, ref=self.refs[rk], api=api)
         if ref['kind'] == 'unsupported' or var['kind'] == 'unsupported':
             ctx.count(stream, nontrivial=False, outcome='unsupported')
             return
-        w = witness(g, parser, lexer, text, rep, window, 'parse', extra, complete_slice)
+        w = witness(g, parser, lexer, text, rep, window, api, extra, complete_slice)
         ntok = len(P.result_tokens(ref))
         nontriv = ntok >= 2 and (rep == 'bytes' or bool(window and window[0]))
-        ctx.count(stream, key=(g, parser, lexer, text, rep, window, complete_slice), nontrivial=nontriv,
-                  config='%s/%s' % (parser, lexer),
+        ctx.count(stream, key=(g, parser, lexer, text, rep, window, complete_slice, api), nontrivial=nontriv,
+                  config='%s/%s' % (parser, lexer), route=api,
                   variant='%s%s' % (rep, '/window' if window else ('/complete-slice' if complete_slice else '')),
                   reference='ok' if ref['kind'] == 'ok' else ref['sig'][0], tokens=min(ntok, 12),
                   window_start=('none' if not window else 'line-start' if (window[0] == '' or window[0].endswith('\n'))
@@ -192,9 +243,10 @@ class Diff:
         for m in msgs:
             ctx.violation('representation-differential', w, True, m, key=key)
         # Coq cases of the variant run (windows / bytes): the model is evaluated on what the lexer did
-        self.col_add(var, w)
+        if api == 'parse' or self.ctx.rng.random() < 0.15:     # the routes lex the same way: a sample is enough
+            self.col_add(var, w)
         # tree level: the callback tree of the substring run, re-based in Coq, must give the window run's metas
-        if window is not None and ref['kind'] == 'ok' and var['kind'] == 'ok':
+        if api == 'parse' and window is not None and ref['kind'] == 'ok' and var['kind'] == 'ok':
             rt, vt = ref['tracer'], var['tracer']
             if len(rt.pp_calls) == len(vt.pp_calls) and rt.pp_calls:
                 same = all(x['sel'] == y['sel'] and [k[0] for k in x['kids']] == [k[0] for k in y['kids']]
@@ -239,12 +291,21 @@ def correspond(ctx):
             if lexer in P.DYNAMIC:
                 # complete-text slices must behave like the plain text (repair F30); partial ones raise TypeError
                 d.case(stream, g, parser, lexer, text, extra, rng.choice(['str', 'bytes']), None, complete_slice=True)
+                if rng.random() < 0.5:
+                    d.case(stream, g, parser, lexer, text, extra, 'bytes', None, api=rng.choice(P.ROUTES_ANY))
                 if rng.random() < 0.3:
                     d.case(stream, g, parser, lexer, text, extra, 'str', (rng.choice(P.WINDOW_PARTS[1:]), ''))
                 continue
             for _ in range(2):
                 win = (rng.choice(P.WINDOW_PARTS), rng.choice(P.WINDOW_PARTS))
                 d.case(stream, g, parser, lexer, text, extra, rng.choice(['str', 'str', 'bytes']), win)
+            # the other public ways of obtaining a result, in every representation
+            routes = list(P.ROUTES_ANY) + (list(P.ROUTES_LALR) if parser == 'lalr' else [])
+            for api in rng.sample(routes, 2 if parser == 'lalr' else 1):
+                d.case(stream, g, parser, lexer, text, extra, 'bytes', None, api=api)
+                if rng.random() < 0.5:
+                    win = (rng.choice(P.WINDOW_PARTS), rng.choice(P.WINDOW_PARTS))
+                    d.case(stream, g, parser, lexer, text, extra, rng.choice(['str', 'bytes']), win, api=api)
 
     for gi in range(ctx.scale(22, 150) * mult):
         if P.enough(ctx):
@@ -263,6 +324,22 @@ def correspond(ctx):
                 k = rng.randrange(len(text))
                 text = text[:k] + rng.choice(['', '$', ';', ')', '\n=']) + text[k + 1:]    # one-edit mutation: rejected inputs
             variants('struct', g, text, ())
+    # every route x {bytes, str window, bytes window} on a fixed grammar (always run)
+    RG = 'start: pair ("," pair)*\npair: NAME "=" NUMBER\nNAME: /[a-z]+/\nNUMBER: /[0-9]+/\n%ignore /[ \\n]+/\n'
+    for parser, lexer in P.CONFIGS:
+        for api in list(P.ROUTES_ANY) + (list(P.ROUTES_LALR) if parser == 'lalr' else []):
+            for rep, win in (('bytes', None), ('str', ('q\n x', '\n')), ('bytes', ('\n', ' z'))):
+                if win is not None and lexer in P.DYNAMIC:
+                    continue
+                d.case('routes', RG, parser, lexer, 'ab = 12, cd = 345,\nxyz = 6', (), rep, win, api=api)
+    # keyword re-typing (UnlessCallback) in every representation and through every route
+    KG = 'start: stmt+\nstmt: IF NAME | NAME "=" NAME\nIF: "if"\nNAME: /[a-z]+/\n%ignore /[ \\n]+/\n'
+    for parser, lexer in P.CONFIGS:
+        for rep, win in (('bytes', None), ('str', ('if\n', ' if')), ('bytes', ('x', '\n'))):
+            if win is not None and lexer in P.DYNAMIC:
+                continue
+            d.case('routes', KG, parser, lexer, 'if a b = c\nif if', (), rep, win)
+            d.case('routes', KG, parser, lexer, 'if a b = c\nif d', (), rep, win, api='deepcopy')
     # fixed exotic witnesses: F9 (listed finding)
     for key, g, text, win in F9_CASES:
         for parser, lexer in (('lalr', 'basic'), ('lalr', 'contextual'), ('earley', 'basic')):
